@@ -1253,6 +1253,36 @@ fn op_default_values(doc: &Document, _: &Ctx, out: &mut Vec<Document>) {
     }
 }
 
+/// An input-object field that refers to an input object becomes non-null AND gets a default value:
+/// the cycle rule speaks of non-null links, whether or not they have a default ("required" and
+/// "non-null" are different things).
+fn op_non_null_input_link_with_default(doc: &Document, _: &Ctx, out: &mut Vec<Document>) {
+    let inputs: Vec<String> =
+        defined_types(doc).into_iter().filter(|(_, k)| *k == TypeKind::Input).map(|(n, _)| n).collect();
+    for s in iv_sites(doc) {
+        if !matches!(s, IvSite::InputField(..)) {
+            continue;
+        }
+        let cur = iv_ref(doc, s).clone();
+        let named = match &cur.ty {
+            Ty::Named(n) => n.clone(),
+            Ty::NonNull(inner) => match &**inner {
+                Ty::Named(n) => n.clone(),
+                _ => continue,
+            },
+            _ => continue,
+        };
+        if !inputs.contains(&named) {
+            continue;
+        }
+        push_with(doc, out, |c| {
+            let iv = iv_mut(c, s);
+            iv.ty = Ty::Named(named.clone()).non_null();
+            iv.default = Some(Value::obj(&[]));
+        });
+    }
+}
+
 fn op_directive_definition(doc: &Document, _: &Ctx, out: &mut Vec<Document>) {
     for (i, d) in doc.defs.iter().enumerate() {
         if let Definition::Directive(dd) = d {
@@ -1445,6 +1475,7 @@ pub const OPS: &[Op] = &[
     Op { name: "directive-arguments", compose: true, apply: op_directive_arguments },
     Op { name: "set-directive-argument-value", compose: true, apply: op_set_directive_argument_value },
     Op { name: "default-values", compose: true, apply: op_default_values },
+    Op { name: "non-null-input-link-with-default", compose: true, apply: op_non_null_input_link_with_default },
     Op { name: "directive-definition", compose: true, apply: op_directive_definition },
     Op { name: "redefine-builtin-directive", compose: true, apply: op_redefine_builtin_directive },
     Op { name: "add-extension", compose: true, apply: op_add_extension },
